@@ -51,6 +51,14 @@ PROBES = [
     ('format', "update t set a=1,b=2 where c=3", {'reindent': True, 'comma_first': True, 'use_space_around_operators': True}),
     ('split', "select 1;  select 2 ;;  select 3; ", {'strip_semicolon': True}),
     ('parse', "select a b, c as d, e.f g, 'x' y, f(1) z, (select 1) w from t1 u, t2 as v", {}),
+    # the same filters with the other value of an option that is kept in the filter instance
+    ('format', "select a from t join u on t.i=u.i where a between 1 and 2 group by a having a>1", {'reindent_aligned': True, 'indent_tabs': True}),
+    ('format', "select a,b from t where c=1 and d in (1,2,3) order by e", {'reindent': True, 'indent_tabs': True}),
+    ('format', "select a,b from t where c=1 and d in (select x from y where z = 1)", {'reindent': True, 'indent_width': 7, 'comma_first': True}),
+    ('format', "select 'abcdefghij', 'klmnopqrst' from t", {'truncate_strings': 5}),
+    ('format', "Select A, b From T Where c In (1, 2)", {'keyword_case': 'upper', 'identifier_case': 'lower'}),
+    ('format', "select a from t; select b from u", {'output_format': 'php'}),
+    ('format', "select a from t; select b from u", {'output_format': 'python', 'reindent': True}),
 ]
 
 
@@ -69,4 +77,8 @@ def run_probe(i):
 
 
 if __name__ == '__main__':
-    print(json.dumps([run_probe(i) for i in range(len(PROBES))]))
+    # one probe per interpreter: the memo of a probe must not depend on the probes computed before it
+    if len(sys.argv) > 1:
+        print(json.dumps(run_probe(int(sys.argv[1]))))
+    else:
+        print(json.dumps([run_probe(i) for i in range(len(PROBES))]))
